@@ -707,6 +707,102 @@ def diff_family():
                 fail("Diff.tree_diff(tree_primal(t), tree_tangent(t)) does not rebuild t's tags", tree=tags)
 
 
+def staging_family():
+    """C20: FlagOp logic for Python-bool / array / mixed operands (eager and under jit), tree_choose = element idx mod n,
+    multi_switch runs the branch at the clamped index and leaves zero placeholders elsewhere - Python-int, array and jitted
+    indices incl. negative and out-of-range ones"""
+    import itertools
+    from genjax._src.core.compiler.staging import FlagOp, multi_switch, tree_choose
+    kinds = {"bool": lambda b: b, "array": lambda b: jnp.array(b)}
+    ops = {"and_": lambda a, b: a and b, "or_": lambda a, b: a or b, "xor_": lambda a, b: a != b}
+    for (ka, fa), (kb, fb) in itertools.product(kinds.items(), repeat=2):
+        for a, b in itertools.product((True, False), repeat=2):
+            for nm, py in ops.items():
+                got = getattr(FlagOp, nm)(fa(a), fb(b))
+                if bool(jnp.all(got)) != py(a, b) or jnp.shape(got) != ():
+                    fail(f"FlagOp.{nm}: not the Boolean connective", a=a, b=b, kinds=f"{ka},{kb}", got=got)
+                if ka == "array" or kb == "array":
+                    j = jax.jit(lambda x, y: getattr(FlagOp, nm)(x if ka == "array" else a, y if kb == "array" else b))(jnp.array(a), jnp.array(b))
+                    if bool(j) != py(a, b):
+                        fail(f"FlagOp.{nm} under jit: not the Boolean connective", a=a, b=b, kinds=f"{ka},{kb}")
+    for ka, fa in kinds.items():
+        for a in (True, False):
+            if bool(FlagOp.not_(fa(a))) != (not a):
+                fail("FlagOp.not_", a=a, kind=ka)
+            if not close(FlagOp.where(fa(a), 1.0, 2.0), 1.0 if a else 2.0):
+                fail("FlagOp.where", a=a, kind=ka)
+    v = jnp.array([True, False, True])
+    for nm, py in ops.items():
+        for b in (True, False):
+            got = getattr(FlagOp, nm)(v, b)
+            want = jnp.array([py(bool(x), b) for x in v])
+            if jnp.shape(got) != (3,) or not bool(jnp.all(got == want)):
+                fail(f"FlagOp.{nm}: vector flag against a Python bool", b=b, got=got)
+    vals = [(1.0, {"u": 10.0}), (2.0, {"u": 20.0}), (3.0, {"u": 30.0})]
+    for idx in (-4, -1, 0, 1, 2, 3, 7):
+        for kind, mk in (("int", lambda i: i), ("array", lambda i: jnp.array(i))):
+            r = tree_choose(mk(idx), vals)
+            if not (close(r[0], vals[idx % 3][0]) and close(r[1]["u"], vals[idx % 3][1]["u"])):
+                fail("tree_choose: not element idx mod n", idx=idx, kind=kind, got=r)
+    fs = [lambda x: x + 1.0, lambda x: x * 10.0, lambda x: jnp.stack([x, x])]
+    args = [(1.0,), (2.0,), (3.0,)]
+    outs = [2.0, 20.0, jnp.array([3.0, 3.0])]
+    for idx in (-7, -3, -2, -1, 0, 1, 2, 3, 10):
+        c = min(max(idx, 0), 2)
+        for kind, run in (("int", lambda i: multi_switch(i, fs, args)), ("array", lambda i: multi_switch(jnp.array(i), fs, args)),
+                          ("jit", lambda i: jax.jit(lambda t: multi_switch(t, fs, args))(jnp.array(i)))):
+            try:
+                r = run(idx)
+            except Exception as e:
+                fail("multi_switch raises", idx=idx, kind=kind, error=type(e).__name__)
+                continue
+            for j in range(3):
+                want = outs[j] if j == c else jnp.zeros_like(outs[j])
+                if jnp.shape(r[j]) != jnp.shape(want) or not close(r[j], want):
+                    fail("multi_switch: slot j is not (branch output if j == clamp(idx) else zeros)", idx=idx, kind=kind, slot=j, got=r[j])
+
+
+def invalid_subset_family():
+    """C33: ChoiceMap.invalid_subset against the addresses a model can trace (static, nested, vmap, switch incl. a bare
+    distribution branch before a structured one, sub-addresses below a leaf)"""
+    @gen
+    def sub():
+        a = normal(0.0, 1.0) @ "a"
+        b = normal(a, 1.0) @ "b"
+        return b
+
+    @gen
+    def model():
+        x = normal(0.0, 1.0) @ "x"
+        y = sub() @ "y"
+        v = sub.repeat(n=2)() @ "v"
+        return x
+    ok = [C.kw(x=1.0), C.d({"x": 1.0, ("y", "a"): 0.5}), C.d({("y", "a"): 0.5, ("y", "b"): 0.1}), C.empty()]
+    for c in ok:
+        if c.invalid_subset(model, ()) is not None:
+            fail("invalid_subset: a constraint made only of traceable addresses is reported", constraint=c)
+    bad = [(C.kw(q=1.0), [("q",)]), (C.d({"x": 1.0, ("y", "zz"): 2.0}), [("y", "zz")]), (C.d({("x", "deep"): 1.0}), [("x", "deep")]),
+           (C.d({("y", "a", "sub"): 1.0, "x": 0.3}), [("y", "a", "sub")])]
+    for c, addrs in bad:
+        r = c.invalid_subset(model, ())
+        if r is None:
+            fail("invalid_subset: an untraceable address is not reported", constraint=c, want=addrs)
+            continue
+        for ad in addrs:
+            if ad not in r:
+                fail("invalid_subset: the reported map misses an untraceable address", addr=ad)
+        if "x" in r:
+            fail("invalid_subset: a traceable address is reported")
+    for order, sw in (("leaf first", genjax.switch(normal, sub)), ("structured first", genjax.switch(sub, normal))):
+        a_leaf, a_sub = (0.0, 1.0), ()
+        args = (0, a_leaf, a_sub) if order == "leaf first" else (0, a_sub, a_leaf)
+        for c in (C.kw(a=0.5), C.kw(a=0.5, b=0.2), C.choice(0.3)):
+            if c.invalid_subset(sw, args) is not None:
+                fail("invalid_subset(switch): an address traced by one of the branches is reported", order=order, constraint=c)
+        if C.kw(nope=1.0).invalid_subset(sw, args) is None:
+            fail("invalid_subset(switch): an address no branch traces is not reported", order=order)
+
+
 def incremental_family():
     """C09: the incremental interpreter on small programs (closed-over array constants, multi-result primitives with dropped
     results, literals, cond / scan / while): primal outputs equal ordinary evaluation, and an output tagged NoChange keeps its
@@ -907,6 +1003,46 @@ def rejuvenate_family():
         if not close(new.get_choices()["y"], tr.get_choices()["y"]):
             fail("Rejuvenate: a choice the proposal does not touch changed")
         wf(new, "Rejuvenate.edit new trace")
+    # changed model arguments: p(x') is evaluated (and the new trace recorded) under the NEW arguments
+
+    @gen
+    def shifted(mu):
+        x = normal(mu, 1.0) @ "x"
+        y = normal(x, 0.5) @ "y"
+        return y
+    for k in range(3):
+        tr = shifted.simulate(jrand.key(k), (0.0,))
+        new, w, _, _ = Rejuvenate(prop, lambda chm: (chm["x"],)).edit(jrand.key(50 + k), tr, (Diff(2.0, UnknownChange),))
+        x0, x1, y = tr.get_choices()["x"], new.get_choices()["x"], tr.get_choices()["y"]
+        lp_new = N(2.0, 1.0).log_prob(x1) + N(x1, 0.5).log_prob(y)
+        want = lp_new - tr.get_score() + N(x1 + 1.0, 0.3).log_prob(x0) - N(x0 + 1.0, 0.3).log_prob(x1)
+        if not (close(w, want) and close(new.get_args()[0], 2.0) and close(new.get_score(), lp_new)):
+            fail("Rejuvenate with changed arguments: weight / new trace are not computed under the new arguments",
+                 w=w, want=want, args=new.get_args()[0], score=new.get_score(), want_score=lp_new)
+    # the update changes a choice the proposal did not propose (a switch branch re-run because its index was proposed) and the
+    # proposal's arguments are computed from that choice: q(x | x') must use the NEW trace's value
+    lo = gen(lambda: normal(-2.0, 1.0) @ "v")
+    hi = gen(lambda: normal(2.0, 1.0) @ "v")
+
+    @gen
+    def sw_model():
+        i = genjax.categorical(jnp.array([0.3, -0.2])) @ "i"
+        return genjax.switch(lo, hi)(i, (), ()) @ "z"
+
+    @gen
+    def sw_prop(logits):
+        genjax.categorical(logits) @ "i"
+    means = jnp.array([-2.0, 2.0])
+    lp = lambda i, v: genjax.categorical.logpdf(i, jnp.array([0.3, -0.2])) + normal.logpdf(v, means[i], 1.0)
+    lq = lambda i, v: genjax.categorical.logpdf(i, jnp.array([-0.7, 0.7]) * v)
+    for k in range(8):
+        tr = sw_model.simulate(jrand.key(k), ())
+        new, w, _, _ = Rejuvenate(sw_prop, lambda chm: (jnp.array([-0.7, 0.7]) * chm["z", "v"].unmask(),)).edit(jrand.key(70 + k), tr, ())
+        i, v = tr.get_choices()["i"], tr.get_choices()["z", "v"].unmask()
+        i2, v2 = new.get_choices()["i"], new.get_choices()["z", "v"].unmask()
+        want = lp(i2, v2) + lq(i, v2) - lp(i, v) - lq(i2, v)
+        if not close(w, want):
+            fail("Rejuvenate: backward proposal density is not evaluated at arguments computed from the NEW trace", w=w, want=want)
 
 
 def pytree_family():
@@ -1046,6 +1182,7 @@ def selection_family():
 
 FAMILIES = [
     (("C19.Mask.", "Mask._or_idx"), mask_algebra_family), (("C18.",), selection_family), ((".Diff.",), diff_family),
+    (("C20.", "FlagOp", "multi_switch", "tree_choose"), staging_family), (("C33.",), invalid_subset_family),
     (("C09.", "incremental"), incremental_family), (("C04.",), key_family), (("C21.",), pytree_family), (("C25.", "Marginal"), marginal_family), (("C27.", "Rejuvenate"), rejuvenate_family), (("C31.",), time_travel_family), (("C17.",), choice_map_family), (("C26.",), smc_family),
     (("MaskCombinator", "MaskTrace"), mask_family), (("Distribution", "ExactDensity", "C24."), distribution_family),
     (("Dimap",), dimap_family), (("Switch",), switch_family), (("Vmap", "repeat"), vmap_family),
